@@ -818,7 +818,12 @@ func c11Oracle(c *ConfCase) (msg string, accepted bool) {
 	if msg != "" {
 		// known finding: a type whose configured fields are all nil is accepted without fields
 		for _, f := range c.Faults {
-			if f.Op == "nilField" && strings.Contains(msg, "type "+f.Target+" has no fields") && known("KF-C11-nil-only-fields") {
+			// the name the type was built under (another fault may have renamed it)
+			builtAs := f.Target
+			if td := c.Schema.Type(f.Target); td != nil {
+				builtAs = (&libBuilder{m: c.Schema, faults: c.Faults}).typeName(td)
+			}
+			if f.Op == "nilField" && (strings.Contains(msg, "type "+f.Target+" has no fields") || strings.Contains(msg, "type "+builtAs+" has no fields")) && known("KF-C11-nil-only-fields") {
 				nilled := map[string]bool{}
 				for _, g := range c.Faults {
 					if g.Op == "nilField" && g.Target == f.Target {
